@@ -105,11 +105,33 @@ struct Ex {
     if (isa<DecompositionDecl>(VD)) { auto &SM = C.getSourceManager(); auto L = SM.getSpellingLoc(VD->getLocation()); return "__sb" + std::to_string(SM.getSpellingLineNumber(L)) + "_" + std::to_string(SM.getSpellingColumnNumber(L)); }
     return VD->getNameAsString();
   }
+  // a class local to a function that has nothing but data members and one call operator: a closure written out by hand.  It is
+  // reported like a lambda (its operator() is a closure body of the enclosing function, its members are captures)
+  const CXXMethodDecl *functorOp(const CXXRecordDecl *RD) {
+    if (!RD) return nullptr; RD = RD->getDefinition();
+    if (!RD || RD->isLambda() || !RD->isLocalClass() || RD->getNumBases() != 0 || RD->isDependentContext()) return nullptr;
+    const CXXMethodDecl *Op = nullptr;
+    for (auto *D : RD->decls()) {
+      if (isa<FunctionTemplateDecl>(D)) return nullptr;
+      if (auto *M = dyn_cast<CXXMethodDecl>(D)) { if (M->isImplicit()) continue; if (M->getOverloadedOperator()==OO_Call && !Op && !M->isStatic()) Op = M; else return nullptr; }
+    }
+    return (Op && Op->hasBody()) ? Op : nullptr;
+  }
+  // the expression that creates such an object: T{a, b} / T() (not a copy or move)
+  const CXXMethodDecl *functorCreated(const Stmt *S) {
+    auto *E = dyn_cast_or_null<Expr>(S); if (!E) return nullptr;
+    if (auto *IL = dyn_cast<InitListExpr>(E)) { if (IL->isSemanticForm() || !IL->getSemanticForm()) return functorOp(IL->getType()->getAsCXXRecordDecl()); return nullptr; }
+    if (auto *CC = dyn_cast<CXXConstructExpr>(E)) { if (CC->getConstructor()->isCopyOrMoveConstructor()) return nullptr; return functorOp(CC->getType()->getAsCXXRecordDecl()); }
+    return nullptr;
+  }
+  const CXXRecordDecl *CurFunctor = nullptr;     // set while the body of such a call operator is being reported
   std::string path(const Expr *E) {
     if (!E) return "<null>";
     E = E->IgnoreParenImpCasts();
     if (auto *EWC = dyn_cast<ExprWithCleanups>(E)) return path(EWC->getSubExpr());
     if (isa<CXXThisExpr>(E)) return "this";
+    if (auto *FOp = functorCreated(E)) return "lambda@" + loc(FOp->getLocation());
+    if (auto *FC = dyn_cast<CXXFunctionalCastExpr>(E)) if (auto *FOp = functorCreated(FC->getSubExpr()->IgnoreParenImpCasts())) return "lambda@" + loc(FOp->getLocation());
     if (auto *D = dyn_cast<DeclRefExpr>(E)) {
       auto *VD = D->getDecl();
       if (auto *BD = dyn_cast<BindingDecl>(VD)) if (BD->getBinding()) return path(BD->getBinding());   // auto &[a, b] = x;  a is x.<field>
@@ -124,6 +146,8 @@ struct Ex {
     if (auto *M = dyn_cast<MemberExpr>(E)) {
       if (isa<CXXMethodDecl>(M->getMemberDecl())) return path(M->getBase());
       if (auto *VD = dyn_cast<VarDecl>(M->getMemberDecl())) { std::string n = intConst(VD); if (!n.empty()) Consts["global:" + qname(VD)] = n; return "global:" + qname(VD); }   // static data member through an object
+      if (CurFunctor && isa<CXXThisExpr>(M->getBase()->IgnoreParenImpCasts()) && isa<FieldDecl>(M->getMemberDecl()) && cast<FieldDecl>(M->getMemberDecl())->getParent()->getCanonicalDecl() == CurFunctor->getCanonicalDecl())
+        return "capture:" + M->getMemberDecl()->getNameAsString();
       return path(M->getBase()) + (M->isArrow()?"->":".") + M->getMemberDecl()->getNameAsString();
     }
     if (auto *U = dyn_cast<UnaryOperator>(E)) {
@@ -205,6 +229,8 @@ struct Ex {
       auto *E = dyn_cast<Expr>(S); if (!E) return S;
       const Expr *I = E->IgnoreParenImpCasts();
       if (auto *EWC = dyn_cast<ExprWithCleanups>(I)) { S = EWC->getSubExpr(); continue; }
+      // static_cast<bool>(x) / bool(x) / (bool)x: the condition is x (its contextual conversion)
+      if (auto *XC = dyn_cast<ExplicitCastExpr>(I)) if (XC->getType()->isBooleanType()) { S = XC->getSubExpr(); continue; }
       if (auto *U = dyn_cast<UnaryOperator>(I)) if (U->getOpcode()==UO_LNot) { neg = !neg; wrapped = true; S = U->getSubExpr(); continue; }
       // if (!(a || b)): the negation makes clang evaluate a || b as a value (both arms meet in the block that branches): that block tests the whole expression
       if (auto *LB = dyn_cast<BinaryOperator>(I)) if (LB->isLogicalOp() && wrapped) return I;
@@ -302,6 +328,9 @@ struct Ex {
     CFG::BuildOptions BO; BO.setAllAlwaysAdd(); BO.AddImplicitDtors = true; BO.AddInitializers = true; BO.AddTemporaryDtors = false;
     auto cfg = CFG::buildCFG(FD, const_cast<Stmt*>(Body), &C, BO);
     if (!cfg) return;
+    struct Restore { const CXXRecordDecl *&R; const CXXRecordDecl *Old; ~Restore() { R = Old; } } restore{CurFunctor, CurFunctor};
+    CurFunctor = nullptr;
+    if (auto *MD0 = dyn_cast<CXXMethodDecl>(FD)) if (auto *Op0 = functorOp(MD0->getParent())) if (Op0->getCanonicalDecl() == MD0->getCanonicalDecl()) CurFunctor = MD0->getParent();
     PrePass PP; PP.TraverseStmt(const_cast<Stmt*>(Body));
     ParentMap PM(const_cast<Stmt*>(Body));
     ids.clear(); kept.clear();
@@ -315,7 +344,7 @@ struct Ex {
       const DeclContext *DC = MDl->getParent()->getDeclContext(); while (DC && !isa<FunctionDecl>(DC)) DC = DC->getParent();
       if (auto *EF = dyn_cast_or_null<FunctionDecl>(DC)) { std::string ek = fkey(EF); if (!Parent || ek != fkey(Parent)) F["encl_key"] = ek; }
     }
-    if (auto *MD = dyn_cast<CXXMethodDecl>(FD)) { F["class"] = qname(MD->getParent()); if (MD->getParent()->isLambda()) F["lambda"] = true; F["access"] = (int)MD->getAccess(); F["static"] = MD->isStatic(); F["kind"] = isa<CXXConstructorDecl>(MD)?"ctor":isa<CXXDestructorDecl>(MD)?"dtor":isa<CXXConversionDecl>(MD)?"conv":"method"; F["virtual"] = MD->isVirtual();
+    if (auto *MD = dyn_cast<CXXMethodDecl>(FD)) { F["class"] = qname(MD->getParent()); if (MD->getParent()->isLambda()) F["lambda"] = true; if (CurFunctor) { F["lambda"] = true; F["functor"] = true; } F["access"] = (int)MD->getAccess(); F["static"] = MD->isStatic(); F["kind"] = isa<CXXConstructorDecl>(MD)?"ctor":isa<CXXDestructorDecl>(MD)?"dtor":isa<CXXConversionDecl>(MD)?"conv":"method"; F["virtual"] = MD->isVirtual();
       std::string s; llvm::raw_string_ostream os(s); MD->getParent()->getNameForDiagnostic(os, PrintingPolicy(LangOptions()), true); F["class_inst"] = os.str(); }
     if (auto *FPT = FD->getType()->getAs<FunctionProtoType>()) F["noexcept"] = FPT->isNothrow();
     F["ret"] = FD->getReturnType().getAsString();
@@ -386,6 +415,14 @@ struct Ex {
           }
           for (unsigned i=a0;i<CE->getNumArgs();++i) A.push_back(CE->getArg(i));
           E["args"]=argsOf(A);
+        } else if (const CXXMethodDecl *FOp = functorCreated(S)) {
+          // a hand-written closure object is created: reported as a lambda expression whose captures are the data members
+          E["k"]="lambda"; E["fn_key"]=loc(FOp->getLocation()); E["use"]=useOf(S, PM); E["functor"]=true; keep = true; json::Array caps;
+          const CXXRecordDecl *RD = FOp->getParent(); auto *IL = dyn_cast<InitListExpr>(S); unsigned i = 0;
+          for (auto *Fd : RD->fields()) { json::Object JC; JC["name"]=Fd->getNameAsString(); JC["init_capture"]=true;
+            if (IL && i < IL->getNumInits() && !isa<ImplicitValueInitExpr>(IL->getInit(i))) JC["init"]=path(IL->getInit(i)); else if (Fd->getInClassInitializer()) JC["init"]=path(Fd->getInClassInitializer());
+            QualType T = Fd->getType(); JC["byref"]=T->isReferenceType(); JC["type"]=T.getAsString(); JC["canon_type"]=T.getCanonicalType().getAsString(); JC["trivial_dtor"]= T->isReferenceType() || T.isDestructedType()==QualType::DK_none; ++i; caps.push_back(std::move(JC)); }
+          E["captures"]=std::move(caps);
         } else if (auto *CC = dyn_cast<CXXConstructExpr>(S)) {
           E["k"]="construct"; calleeInfo(E, CC->getConstructor()); E["type"]=CC->getType().getAsString(); keep = true; E["use"] = useOf(S, PM);
           if (CC->getConstructor()->isCopyOrMoveConstructor()) E["copy_or_move"]=true;
@@ -436,6 +473,8 @@ public:
   bool shouldVisitImplicitCode() const { return false; }
   void one(FunctionDecl *FD, const FunctionDecl *Parent) {
     if (!FD || !FD->doesThisDeclarationHaveABody() || FD->isDependentContext() || !X.inRoot(FD->getLocation())) return;
+    // the call operator of a hand-written closure class belongs to the function the class is local to, like a lambda body
+    if (!Parent) if (auto *MD = dyn_cast<CXXMethodDecl>(FD)) if (auto *Op = X.functorOp(MD->getParent())) if (Op->getCanonicalDecl() == MD->getCanonicalDecl()) Parent = MD->getParent()->isLocalClass();
     std::string key = X.loc(FD->getLocation()) + "|" + (Parent ? instName(Parent) + " :: " : std::string()) + instName(FD);
     if (seen.insert(key).second) X.function(FD, Fns, Parent);
   }
